@@ -52,27 +52,19 @@ theorem pre_other (hc : TableConsistent T L) {l : Nat} (hl : l < L.n) (hk : (L.a
     · simp [headPre, h2]
   · simp [headPre, h1]
 
-theorem binderSpell_mem (uni : Bool) (b : Nat) (h : L.binders.getD b [] ≠ []) : binderSpell L uni b ∈ L.binders.getD b [] := by
-  unfold binderSpell
-  generalize L.binders.getD b [] = g at h
-  cases g with
-  | nil => exact absurd rfl h
-  | cons a g' =>
-    cases uni
-    · simp
-    · simp only [ite_true]
-      rw [List.getLastD_eq_getLast?]
-      have := List.getLast?_eq_getLast (l := a :: g') (by simp)
-      rw [this]
-      simp [List.getLast_mem]
+theorem binderSpell_mem (hc : TableConsistent T L) (uni : Bool) {b : Nat} (hb : b < L.binders.length) :
+    binderSpell T L uni b ∈ L.binders.getD b [] := by
+  cases uni
+  · exact (hc.2.2.2.2.1 b hb).1.1
+  · exact (hc.2.2.2.2.1 b hb).1.2
 
 theorem binder_idx (hc : TableConsistent T L) (uni : Bool) {b : Nat} (hb : b < L.binders.length) :
-    L.binderIdx (binderSpell L uni b) = some b :=
-  (hc.2.2.2.2 b hb).2 _ (binderSpell_mem uni b (hc.2.2.2.2 b hb).1)
+    L.binderIdx (binderSpell T L uni b) = some b :=
+  (hc.2.2.2.2.1 b hb).2 _ (binderSpell_mem hc uni hb)
 
 theorem binder_noLevel (hc : TableConsistent T L) (uni : Bool) {b : Nat} (hb : b < L.binders.length) {k : Nat} (hk : k < L.n) :
-    (L.at k).has (binderSpell L uni b) = false := by
-  by_cases h : (L.at k).has (binderSpell L uni b) = true
+    (L.at k).has (binderSpell T L uni b) = false := by
+  by_cases h : (L.at k).has (binderSpell T L uni b) = true
   · have h1 := hc.2.2.2.1 k hk _ ((has_iff _ _).1 h)
     rw [binder_idx hc uni hb] at h1
     cases h1
@@ -405,7 +397,7 @@ theorem good_binder (hc : TableConsistent T L) {b : Nat} {x : String} {body : Sk
     | succ fu' =>
       have hbody := ihb.A 0 rest fu' (Nat.zero_le _) (Nat.zero_le _) (fun _ => hst0) hst0
         (by simp only [List.length_cons] at hlen; omega)
-      have hat : atomP L (parseAt T L (fu' + 1)) (.sym (binderSpell L uni b) :: .id x :: .dot :: (printSkel T L uni body ++ rest))
+      have hat : atomP L (parseAt T L (fu' + 1)) (.sym (binderSpell T L uni b) :: .id x :: .dot :: (printSkel T L uni body ++ rest))
           = some (.binder b x body, rest) := by
         rw [atomP]; simp [hidx, hbody]
       have h1 := step_app (T := T) (i := L.n) hat
